@@ -201,6 +201,15 @@ def skolemize_goal(goal, pc, max_inst=120, extra_terms=()):
             seen_ids.add(t.get_id())
             sks.append(t)
     insts = []
+    # a dictionary known to be non-empty (m != {}) has some key: name it, so that facts about all keys can be used for it
+    for h in pc[-60:]:
+        if z3.is_not(h) and z3.is_eq(h.arg(0)) and h.arg(0).arg(0).sort() == KwMap:
+            a_, b_ = h.arg(0).arg(0), h.arg(0).arg(1)
+            for m_, k_ in ((a_, b_), (b_, a_)):
+                if z3.is_const_array(k_) and k_.arg(0).eq(Val.absent) and len(sks) < 8:
+                    w = so.fresh("wit", Val)
+                    insts.append(m_[w] != Val.absent)
+                    sks.append(w)
     for h in pc:
         for c in _conjuncts(h):
             if z3.is_quantifier(c) and c.is_forall() and c.num_vars() == 2 and c.var_sort(0) == z3.IntSort() and c.var_sort(1) == z3.IntSort():
@@ -377,6 +386,8 @@ class Engine:
             d = self.prefix[k]
         else:
             d = 0
+            if n > 1 and getattr(self, "_no_branch", 0):
+                raise Unsupported("%s: choice inside a comprehension element (%s)" % (getattr(self, "target_name", "?"), label))
             for alt in range(n - 1, 0, -1):
                 self.worklist.append(list(self.trace) + [alt])
         self.trace.append(d)
@@ -397,6 +408,8 @@ class Engine:
             t_ok = self.check_sat(cond)
             f_ok = self.check_sat(z3.Not(cond))
             if t_ok and f_ok:
+                if getattr(self, "_no_branch", 0):
+                    raise Unsupported("%s: branching inside a comprehension element (%s)" % (getattr(self, "target_name", "?"), label))
                 d = 1
                 self.worklist.append(list(self.trace) + [0])
             elif t_ok:
